@@ -205,6 +205,33 @@ let run_traj (mode : string) (b : M.z list) (queries : string list) : string =
     String.concat " " (hd :: outs @ extra)
   | r -> "init:" ^ show_res_code (fun _ -> "0") r
 
+(* ---------- yaw (C10) *)
+let run_yaw (mode : string) (b : M.z list) (queries : string list) : string =
+  match M.yaw_init b with
+  | M.Ok y ->
+    let hd = pr "init:0 auto=%d off=%s n=%d empty=%d dur=%s" (if y.M.y_auto then 1 else 0) (string_of_z y.M.y_offset)
+        (int_of_nat y.M.y_num_deltas) (if M.yaw_is_empty y then 1 else 0) (string_of_z (M.yaw_total_duration_msec y)) in
+    let cur = ref (M.ycursor0 y) in
+    let outs = List.map (fun qs ->
+        let kind = qs.[0] in
+        let t = qtime_of_hex (String.sub qs 1 (String.length qs - 1)) in
+        if kind = 'd' then pr "d:0:%s" (string_of_z (M.yaw_total_duration_msec y)) else
+        let c = if mode = "h" then !cur else M.ycursor0 y in
+        match M.yseek y c t with
+        | M.Ok l ->
+          cur := M.ylanding_cursor l;
+          let tq = (match M.clamp0 t with M.QFin q -> q | _ -> qabs_of_time t) in
+          let tol = M.yaw_tol_at y tq in
+          let off = int_of_nat (M.ylanding_cursor l).M.yc_off in
+          (match kind with
+           | 'y' -> pr "y:0:%s:%s:%d" (string_of_q (M.yaw_of l)) (string_of_q tol) off
+           | _ -> (match M.yaw_rate_of l with
+               | Some r -> pr "r:0:%s:%d" (string_of_q r) off
+               | None -> pr "r:0:inf:%d" off))
+        | r -> pr "%c:%s" kind (show_res_code (fun _ -> "0") r)) queries in
+    String.concat " " (hd :: outs)
+  | r -> "init:" ^ show_res_code (fun _ -> "0") r
+
 (* ---------- dispatch *)
 let run_case (w : string list) : string =
   match w with
@@ -228,6 +255,7 @@ let run_case (w : string list) : string =
   | ["rgbenc"; r; g; b] ->
     pr "ok %s" (string_of_z (M.encode_rgb565 { M.red = z_of_string r; M.green = z_of_string g; M.blue = z_of_string b }))
   | ["file"; r; b; script] -> run_file_script (route_of r) (bytes_of_hex b) script
+  | ["yaw"; mode; b; qs] -> run_yaw mode (bytes_of_hex b) (if qs = "-" then [] else String.split_on_char ',' qs)
   | ["traj"; mode; b; qs] -> run_traj mode (bytes_of_hex b) (if qs = "-" then [] else String.split_on_char ',' qs)
   | ["rth"; b; pts; times] -> run_rth (bytes_of_hex b) (ints_of_csv pts) (if times = "-" then [] else String.split_on_char ',' times)
   | ["load"; k; r; b] ->
